@@ -267,6 +267,7 @@ def run_c04(ctx):
 # ------------------------------------------------------------------------------------------- C05
 def run_c05(ctx):
     q = ctx.tier == "quick"
+    if not q: ctx.lemma("NegComplement")
     u = universe(ctx.tier, ["AtLeast"], leaves=[LEAF("A"), LEAF("b"), LEAF("t", -1, 2)], comp=2, kids=3, ids=("exp",) if q else ("exp", "gen"), signs=(1, -1), values=range(-1, 3) if q else range(-2, 4))
     r = ctx.model_check("PuanBuild", u, invariants=["C05"], dump=True, name="Build_C05")
     cases = spec_cases(ctx, r)
@@ -307,6 +308,7 @@ def run_c05(ctx):
 # ------------------------------------------------------------------------------------------- C06
 def run_c06(ctx):
     q = ctx.tier == "quick"
+    if not q: ctx.lemma("IntervalSound")
     u = universe(ctx.tier, ["AtLeast"], comp=2, kids=3, ids=("exp",), signs=(1, -1), values=range(-1, 3) if q else range(-2, 4), dict_ids=2)
     r = ctx.model_check("PuanBuild", u, invariants=["C06"], dump=True, name="Build_C06")
     cases = spec_cases(ctx, r, max_interps=12 if q else 60)
@@ -634,6 +636,7 @@ def narrow_storage_family(ctx):
 
 def run_c11(ctx):
     q = ctx.tier == "quick"
+    if not q: ctx.lemma("RowImplied", cinit="ConstInit")
     cases = poly_universe(ctx, ["ProjInv", "RowsImplied", "ColsForced", "FinalReduce"], "Poly_C11",
                           bs=range(-1, 2) if q else range(-2, 3), bounds=((0, 1), (-1, 2)) if q else ((0, 1), (-1, 2), (1, 1)))
     if not q:
@@ -649,6 +652,7 @@ def run_c11(ctx):
 def run_c12(ctx):
     q = ctx.tier == "quick"
     if not q: ctx.lemma("TightenSound", cinit="ConstInit")
+    if not q: ctx.lemma("RowImplied", cinit="ConstInit")
     cases = poly_universe(ctx, ["TightSound", "RowBoundsExact"], "Poly_C12",
                           bs=range(-1, 2) if q else range(-2, 3), bounds=((0, 1), (-1, 2)) if q else ((0, 1), (-1, 2), (1, 1)))
     if not q:
@@ -767,6 +771,7 @@ def run_c20(ctx):
 # ------------------------------------------------------------------------------------------- C13
 def run_c13(ctx):
     q = ctx.tier == "quick"
+    if not q: ctx.lemma("ShadowLex", init_bad="InitBad")
     inv = ["ShadowAlg", "PrioDense", "RanksAll", "Exact"]
     cases = []
     for name, u in (("Prio_2x3", {"NRows": 2, "NColsC": 3, "Vals": S([-2, -1, 0, 1] if q else range(-2, 3))}),
@@ -915,6 +920,7 @@ def _all_ids(r, acc=None):
     return acc
 
 def run_c14(ctx):
+    if ctx.tier != "quick": ctx.lemma("ShadowLex", init_bad="InitBad")
     cases = cfg_cases(ctx, ["C14"])
     for k, c in enumerate(cases):
         c["solvers"] = ["capture"] if k % 4 else ["exact"]
